@@ -37,8 +37,10 @@ def check(run):
                "nb_get_fock_space_basis hands partitions a slice view of its result array as `out` - that the rows written through the "
                "view are rows current_row.. of the result is numpy's slicing semantics (assumed); sector offsets are proved")
     run.assume("fermionic enumeration: successor step (rank + 1, sector change), rank of the first vector = 0 and the dimension sums are "
-               "proved; the induction over get_fock_space_basis (occupation <-> first-quantised conversion, one call per row) is a stated "
-               "argument over these contracts and is evaluated by the bounded stand-in")
+               "proved, and so are the two conversions occupation vector <-> first-quantised form (_to_first_quantized lists exactly the occupied "
+               "modes in increasing order, _to_second_quantized sets exactly the listed modes); the induction over get_fock_space_basis "
+               "(one successor call per row, rows addressed through numpy row views) is a stated argument over these contracts and is "
+               "evaluated by the bounded stand-in")
     run.assume("pre-conditions state the property's own range: every partial sum / partial index / binomial term fits 32 bits")
 
 
